@@ -390,6 +390,21 @@ def r12_8(ctx, rep):
 
             rep.ob(R, MODEL + ":" + _enclosing_fn(t), "test `%s` reads options only" % norm(t.test)[:60], pure(t.test),
                    "the test mixes the representation option with something computed from the model")
+    # ... and a flag computed from it ahead of the test is made of option reads only, too
+    for st in ast.walk(mod):
+        if isinstance(st, ast.Assign) and isinstance(st.targets[0], ast.Name) and not isinstance(st.value, ast.Subscript) and any(
+                isinstance(x, ast.Subscript) and subscript_key(x) == "expand_mx" for x in ast.walk(st.value)):
+            n += 1
+
+            def pure2(e):
+                if isinstance(e, ast.BoolOp):
+                    return all(pure2(v) for v in e.values)
+                if isinstance(e, ast.UnaryOp) and isinstance(e.op, ast.Not):
+                    return pure2(e.operand)
+                return isinstance(e, ast.Subscript) and subscript_key(e) is not None and is_name(e.value, "options")
+
+            rep.ob(R, MODEL + ":" + _enclosing_fn(st), "flag `%s` is made of option reads only" % norm(st)[:60], pure2(st.value),
+                   "the flag mixes the representation option with something computed from the model")
     if n < 2:
         raise MechanismMissing(R, "fewer than 2 tests of options['expand_mx'] found in casadi/model.py")
 
